@@ -162,6 +162,14 @@ def replay(chk: Check, cases, tier):
                 if not all(M.same(a, b) for a, b in zip(ser.length.values, arr.length)) or not all(M.same(a, b) for a, b in zip(ser.area.values, arr.area)) \
                         or list(ser.length.index) != list(ser.index):
                     fail(chk, kind, "GeoSeries", subtype, aff, desc, "GeoSeries.length/area", None, None, "geoseries")
+                if n >= 2 and nb % 6 == 0:
+                    import dask
+                    import dask.dataframe as dd
+                    with dask.config.set(scheduler="synchronous"):
+                        ds = dd.from_pandas(sp.GeoSeries(arr), npartitions=min(3, n))
+                        dl, da_ = ds.length.compute().values, ds.area.compute().values
+                    if not all(M.same(a, b) for a, b in zip(dl, arr.length)) or not all(M.same(a, b) for a, b in zip(da_, arr.area)) or len(dl) != n:
+                        fail(chk, kind, "DaskGeoSeries(3 partitions)", subtype, aff, desc, "DaskGeoSeries.length/area", None, None, "dask")
         if nb == 2:
             i = next((i for i, x in enumerate(exps) if x is not None), None)
             if i is not None:
